@@ -53,6 +53,13 @@ impl SharedTcpPort {
                         tokio::spawn(async move {
                             if let Err(e) = dispatch_incoming(stream, peer, port).await {
                                 debug!("shared TCP demux failed from {}: {}", peer, e);
+                                #[cfg(rustrtc_verif)]
+                                crate::verif::emit(
+                                    "ice",
+                                    "tcpmux",
+                                    "tcpmux_drop",
+                                    serde_json::json!({"src": peer.to_string()}),
+                                );
                             }
                         });
                     }
